@@ -103,7 +103,7 @@ def run_case(ctx, rep, spec, cn, posname, pos, fields, limit, model, path=None, 
                                 if nbadcells <= 2:
                                     rep.fail(what, dict(case, level=lv, cell=[i, j], field=fname))
                             elif batch is not None and not big:
-                                cfg = {"op": "column", "fixed": True, "g": c07.J(spec["geo_low"][cn]), "G": c07.J(G[cn]),
+                                cfg = {"op": "column", "fixed": True, "N": spec["grid0"][cn], "g": c07.J(spec["geo_low"][cn]), "G": c07.J(G[cn]),
                                        "d0": c07.J(spec["dx0"][cn]), "pos": c07.J(pos),
                                        "levels": [[{"a": a, "vals": [c07.J(float(v)) for v in vals]} for a, vals in bs] for bs in levels]}
                                 batch.append((case, (lv, i, j), float(got_v), None, cfg))
